@@ -437,6 +437,11 @@ class ExprMixin:
             if isinstance(sv.ty, TTuple) and isinstance(ty, TTuple) and len(sv.ty.items) == len(ty.items):
                 parts = [self.coerce_checked(st, x, t, node, what) for x, t in zip(sv.t, ty.items)]
                 return SV(ty, tuple(parts))
+            from .values import _LITERALS, seq_literal as _seq_literal
+            if isinstance(ty, TSeq) and isinstance(sv.ty, TSeq) and sv.t is not None and sv.t.get_id() in _LITERALS:
+                # a list display whose items need checked coercion (e.g. an Optional item that must not be None)
+                items = [self.coerce_checked(st, it, ty.elem, node, what) for it in _LITERALS[sv.t.get_id()][1]]
+                return coerce(_seq_literal(items, self.classes), ty, self.classes)
             if isinstance(ty, TOpt) and not isinstance(sv.ty, TOpt) and sv.ty != TNone:
                 inner = self.coerce_checked(st, sv, ty.inner, node, what)
                 return coerce(inner, ty, self.classes)
@@ -1153,8 +1158,10 @@ class ExprMixin:
             return l.t == r.t
         if l.ty == TStr and r.ty == TStr and (self.spec_depth > 0 or self.in_contract):
             return l.t == r.t
-        if isinstance(l.ty, TOpaque) and l.ty == r.ty and not isinstance(l.ty, TFun):
-            return l.t == r.t          # arbitrary objects: identity is equality of the opaque value
+        if isinstance(l.ty, TOpaque) and l.ty == r.ty:
+            return l.t == r.t
+        if isinstance(l.ty, TOpt) and l.ty == r.ty and isinstance(l.ty.inner, (TOpaque, TRef)):
+            return l.t == r.t          # None is None; otherwise identity of the object / opaque value          # arbitrary objects: identity is equality of the opaque value
         raise OutsideSubset('identity test on %s / %s' % (l.ty, r.ty))
 
     def is_none(self, v):
